@@ -151,7 +151,18 @@ class Facts:
         if t.is_const():
             return (0, t.c)
         congs = self.__dict__.get("congs")
-        if congs and depth < 3:
+        if congs:
+            memo = self._cache("cong")
+            key = (t, min(depth, 4))
+            if key in memo:
+                return memo[key]
+            r_ = self._cong_with(t, depth, congs)
+            memo[key] = r_
+            return r_
+        return self._cong_plain(t, depth)
+
+    def _cong_with(self, t, depth, congs):
+        if depth < 3:
             # assumed linear congruences  L ≡ 0 (mod A): subtracting ±L leaves the residue mod A unchanged and
             # may cancel atoms whose own congruence is unknown
             base = self._cong_plain(t, depth)
@@ -168,7 +179,10 @@ class Facts:
 
     def add_cong(self, L, A):
         """assume L ≡ 0 (mod A)"""
-        self.__dict__.setdefault("congs", []).append((L, A))
+        cg = self.__dict__.setdefault("congs", [])
+        if (L, A) in cg:
+            return
+        cg.append((L, A))
         self.raw.append(("congruent", L, A))  # (bumps the memo version; never decided or split on)
 
     def _cong_plain(self, t, depth=0):
@@ -807,6 +821,14 @@ def _simplify(t, facts, depth):
             m, r = facts.cong(x)
             if m == 0 or m >= A:
                 return x + ((-r) % A)
+            # pull out assumed-aligned sums  L ≡ 0 (mod A') with A | A'  that occur in x as a whole
+            pulled = ZERO
+            for (L, Am) in (facts.__dict__.get("congs") or ()):
+                if Am % A == 0 and L.t and all(x.coeff(a_) == k_ for a_, k_ in L.t) and L.c == 0:
+                    pulled = pulled + L
+                    x = x - L
+            if pulled.t:
+                return pulled + simplify(mk_alignup(x, A), facts, depth + 1)
             # pull out the summands that the congruence domain proves to be multiples of A
             out = ZERO
             rest = Lin(x.c)
